@@ -49,10 +49,10 @@ func verifAbstractLen(key int, n int) {}
 // scenario
 
 const (
-	verifKindFull     = iota // FullSnapshot with a db header
-	verifKindNoDB            // FullSnapshot without db header
-	verifKindIncFile         // IncrementalFileSnapshot (no data may follow)
-	verifKindNoPayload       // header without payload
+	verifKindFull      = iota // FullSnapshot with a db header
+	verifKindNoDB             // FullSnapshot without db header
+	verifKindIncFile          // IncrementalFileSnapshot (no data may follow)
+	verifKindNoPayload        // header without payload
 )
 
 const (
